@@ -56,3 +56,27 @@ pub fn pad_field(args: &[String]) -> String {
     }
     format!("{{\"found\": false, \"tried\": {}}}", tried)
 }
+
+/// C14 / C15-style totality of the field formatter: no text, width, alignment or truncate flag makes it panic
+/// (also double-width, combining and ANSI-styled text, where the column arithmetic differs from the byte arithmetic).
+pub fn pad_no_panic(_args: &[String]) -> String {
+    std::panic::set_hook(Box::new(|_| {}));
+    let texts = ["", "a", "hello world", "ééééé", "añb", "日本語", "日本語日本語日本語", "a日b", "😀😀😀😀", "\u{1b}[1mbold\u{1b}[0m", "e\u{301}e\u{301}e\u{301}", "\u{200b}\u{200b}", "日"];
+    let mut tried = 0u64;
+    for s in texts {
+        for w in 0..=10usize {
+            for al in 0..3u8 {
+                for tr in [false, true] {
+                    tried += 1;
+                    let r = std::panic::catch_unwind(|| padded(s, w, al, tr));
+                    if let Err(e) = r {
+                        let m = e.downcast_ref::<String>().cloned().or_else(|| e.downcast_ref::<&str>().map(|x| x.to_string())).unwrap_or_default();
+                        return format!("{{\"found\": true, \"clause\": \"C14 a placeholder field never panics while it is rendered, whatever the text\", \"tried\": {}, \"input\": {{\"text\": {}, \"width\": {}, \"align\": {}, \"truncate\": {}, \"panic\": {}}}, \"rerun\": \"replay pad_no_panic\"}}",
+                            tried, crate::js(s), w, al, tr, crate::js(&m));
+                    }
+                }
+            }
+        }
+    }
+    format!("{{\"found\": false, \"tried\": {}}}", tried)
+}
